@@ -248,6 +248,9 @@ func ecRandomWorld(e *Env) ecWorld {
 		}
 		w.odd = ecOddWindow(rng.Intn(len(ecOddPool)), vs)
 	}
+	if rng.Intn(3) == 0 {
+		c15BreakSome(e, &w) // versions that do not parse / cannot be rendered (c15_broken.go)
+	}
 	return w
 }
 
